@@ -151,14 +151,15 @@ theorem core_h1 (as bs : List Nat) (n q : Nat) (has : as ≠ []) (hq : bs.length
   rw [hc, hW]
 
 /-- what toom8h_mul.c:147-150 asserts about the decomposition, and what the evaluation/interpolation needs:
-    the degrees add up to 14 (half = 0) or 15 (half = 1); q ≥ 3 (the degree-3 helper is used exactly for 4 blocks) -/
-def SplitOk (sp : Split) : Prop :=
+    the degrees add up to 14 (half = 0) or 15 (half = 1); q ≥ 3 (the degree-3 helper is used exactly for 4 blocks);
+    the recursive products are on n + 1 < bn limbs (the recursion is well founded) -/
+def SplitOk (bn : Nat) (sp : Split) : Prop :=
   0 < sp.s ∧ sp.s ≤ sp.n ∧ 0 < sp.t ∧ sp.t ≤ sp.n ∧ (sp.half = true ∨ sp.s + sp.t > 3) ∧ sp.n > 2 ∧
-  sp.p + sp.q = (if sp.half = true then 15 else 14) ∧ 3 ≤ sp.q
+  sp.p + sp.q = (if sp.half = true then 15 else 14) ∧ 3 ≤ sp.q ∧ sp.n + 1 < bn
 
 theorem splitPQ_9_8 (an bn : Nat) (h1 : an ≥ bn) (h2 : bn ≥ 86) (h3 : an * 4 ≤ bn * 13)
     (hf : ¬ (an = bn ∨ an * 10 < 21 * (bn / 2)))  (hc : an * 13 < 16 * bn) :
-    SplitOk (splitPQ an bn 9 8) := by
+    SplitOk bn (splitPQ an bn 9 8) := by
   unfold splitPQ SplitOk
   simp only [apply_ite Split.s, apply_ite Split.t, apply_ite Split.n, apply_ite Split.p, apply_ite Split.q,
     apply_ite Split.half]
@@ -166,7 +167,7 @@ theorem splitPQ_9_8 (an bn : Nat) (h1 : an ≥ bn) (h2 : bn ≥ 86) (h3 : an * 4
 
 theorem splitPQ_9_7 (an bn : Nat) (h1 : an ≥ bn) (h2 : bn ≥ 86) (h3 : an * 4 ≤ bn * 13)
     (hf : ¬ (an = bn ∨ an * 10 < 21 * (bn / 2))) (n0 : ¬ an * 13 < 16 * bn) (hc : an * 10 < 27 * (bn / 2)) :
-    SplitOk (splitPQ an bn 9 7) := by
+    SplitOk bn (splitPQ an bn 9 7) := by
   unfold splitPQ SplitOk
   simp only [apply_ite Split.s, apply_ite Split.t, apply_ite Split.n, apply_ite Split.p, apply_ite Split.q,
     apply_ite Split.half]
@@ -174,7 +175,7 @@ theorem splitPQ_9_7 (an bn : Nat) (h1 : an ≥ bn) (h2 : bn ≥ 86) (h3 : an * 4
 
 theorem splitPQ_10_7 (an bn : Nat) (h1 : an ≥ bn) (h2 : bn ≥ 86) (h3 : an * 4 ≤ bn * 13)
     (hf : ¬ (an = bn ∨ an * 10 < 21 * (bn / 2))) (n0 : ¬ an * 13 < 16 * bn) (n1 : ¬ an * 10 < 27 * (bn / 2)) (hc : an * 10 < 33 * (bn / 2)) :
-    SplitOk (splitPQ an bn 10 7) := by
+    SplitOk bn (splitPQ an bn 10 7) := by
   unfold splitPQ SplitOk
   simp only [apply_ite Split.s, apply_ite Split.t, apply_ite Split.n, apply_ite Split.p, apply_ite Split.q,
     apply_ite Split.half]
@@ -182,7 +183,7 @@ theorem splitPQ_10_7 (an bn : Nat) (h1 : an ≥ bn) (h2 : bn ≥ 86) (h3 : an * 
 
 theorem splitPQ_10_6 (an bn : Nat) (h1 : an ≥ bn) (h2 : bn ≥ 86) (h3 : an * 4 ≤ bn * 13)
     (hf : ¬ (an = bn ∨ an * 10 < 21 * (bn / 2))) (n0 : ¬ an * 13 < 16 * bn) (n1 : ¬ an * 10 < 27 * (bn / 2)) (n2 : ¬ an * 10 < 33 * (bn / 2)) (hc : an * 4 < 7 * bn) :
-    SplitOk (splitPQ an bn 10 6) := by
+    SplitOk bn (splitPQ an bn 10 6) := by
   unfold splitPQ SplitOk
   simp only [apply_ite Split.s, apply_ite Split.t, apply_ite Split.n, apply_ite Split.p, apply_ite Split.q,
     apply_ite Split.half]
@@ -190,7 +191,7 @@ theorem splitPQ_10_6 (an bn : Nat) (h1 : an ≥ bn) (h2 : bn ≥ 86) (h3 : an * 
 
 theorem splitPQ_11_6 (an bn : Nat) (h1 : an ≥ bn) (h2 : bn ≥ 86) (h3 : an * 4 ≤ bn * 13)
     (hf : ¬ (an = bn ∨ an * 10 < 21 * (bn / 2))) (n0 : ¬ an * 13 < 16 * bn) (n1 : ¬ an * 10 < 27 * (bn / 2)) (n2 : ¬ an * 10 < 33 * (bn / 2)) (n3 : ¬ an * 4 < 7 * bn) (hc : an * 6 < 13 * bn) :
-    SplitOk (splitPQ an bn 11 6) := by
+    SplitOk bn (splitPQ an bn 11 6) := by
   unfold splitPQ SplitOk
   simp only [apply_ite Split.s, apply_ite Split.t, apply_ite Split.n, apply_ite Split.p, apply_ite Split.q,
     apply_ite Split.half]
@@ -198,7 +199,7 @@ theorem splitPQ_11_6 (an bn : Nat) (h1 : an ≥ bn) (h2 : bn ≥ 86) (h3 : an * 
 
 theorem splitPQ_11_5 (an bn : Nat) (h1 : an ≥ bn) (h2 : bn ≥ 86) (h3 : an * 4 ≤ bn * 13)
     (hf : ¬ (an = bn ∨ an * 10 < 21 * (bn / 2))) (n0 : ¬ an * 13 < 16 * bn) (n1 : ¬ an * 10 < 27 * (bn / 2)) (n2 : ¬ an * 10 < 33 * (bn / 2)) (n3 : ¬ an * 4 < 7 * bn) (n4 : ¬ an * 6 < 13 * bn) (hc : an * 4 < 9 * bn) :
-    SplitOk (splitPQ an bn 11 5) := by
+    SplitOk bn (splitPQ an bn 11 5) := by
   unfold splitPQ SplitOk
   simp only [apply_ite Split.s, apply_ite Split.t, apply_ite Split.n, apply_ite Split.p, apply_ite Split.q,
     apply_ite Split.half]
@@ -206,7 +207,7 @@ theorem splitPQ_11_5 (an bn : Nat) (h1 : an ≥ bn) (h2 : bn ≥ 86) (h3 : an * 
 
 theorem splitPQ_12_5 (an bn : Nat) (h1 : an ≥ bn) (h2 : bn ≥ 86) (h3 : an * 4 ≤ bn * 13)
     (hf : ¬ (an = bn ∨ an * 10 < 21 * (bn / 2))) (n0 : ¬ an * 13 < 16 * bn) (n1 : ¬ an * 10 < 27 * (bn / 2)) (n2 : ¬ an * 10 < 33 * (bn / 2)) (n3 : ¬ an * 4 < 7 * bn) (n4 : ¬ an * 6 < 13 * bn) (n5 : ¬ an * 4 < 9 * bn) (hc : an * 7 < 20 * bn) :
-    SplitOk (splitPQ an bn 12 5) := by
+    SplitOk bn (splitPQ an bn 12 5) := by
   unfold splitPQ SplitOk
   simp only [apply_ite Split.s, apply_ite Split.t, apply_ite Split.n, apply_ite Split.p, apply_ite Split.q,
     apply_ite Split.half]
@@ -214,7 +215,7 @@ theorem splitPQ_12_5 (an bn : Nat) (h1 : an ≥ bn) (h2 : bn ≥ 86) (h3 : an * 
 
 theorem splitPQ_12_4 (an bn : Nat) (h1 : an ≥ bn) (h2 : bn ≥ 86) (h3 : an * 4 ≤ bn * 13)
     (hf : ¬ (an = bn ∨ an * 10 < 21 * (bn / 2))) (n0 : ¬ an * 13 < 16 * bn) (n1 : ¬ an * 10 < 27 * (bn / 2)) (n2 : ¬ an * 10 < 33 * (bn / 2)) (n3 : ¬ an * 4 < 7 * bn) (n4 : ¬ an * 6 < 13 * bn) (n5 : ¬ an * 4 < 9 * bn) (n6 : ¬ an * 7 < 20 * bn) (hc : an * 9 < 28 * bn) :
-    SplitOk (splitPQ an bn 12 4) := by
+    SplitOk bn (splitPQ an bn 12 4) := by
   unfold splitPQ SplitOk
   simp only [apply_ite Split.s, apply_ite Split.t, apply_ite Split.n, apply_ite Split.p, apply_ite Split.q,
     apply_ite Split.half]
@@ -222,7 +223,7 @@ theorem splitPQ_12_4 (an bn : Nat) (h1 : an ≥ bn) (h2 : bn ≥ 86) (h3 : an * 
 
 theorem splitPQ_13_4 (an bn : Nat) (h1 : an ≥ bn) (h2 : bn ≥ 86) (h3 : an * 4 ≤ bn * 13)
     (hf : ¬ (an = bn ∨ an * 10 < 21 * (bn / 2))) (n0 : ¬ an * 13 < 16 * bn) (n1 : ¬ an * 10 < 27 * (bn / 2)) (n2 : ¬ an * 10 < 33 * (bn / 2)) (n3 : ¬ an * 4 < 7 * bn) (n4 : ¬ an * 6 < 13 * bn) (n5 : ¬ an * 4 < 9 * bn) (n6 : ¬ an * 7 < 20 * bn) (n7 : ¬ an * 9 < 28 * bn) :
-    SplitOk (splitPQ an bn 13 4) := by
+    SplitOk bn (splitPQ an bn 13 4) := by
   unfold splitPQ SplitOk
   simp only [apply_ite Split.s, apply_ite Split.t, apply_ite Split.n, apply_ite Split.p, apply_ite Split.q,
     apply_ite Split.half]
@@ -231,7 +232,7 @@ theorem splitPQ_13_4 (an bn : Nat) (h1 : an ≥ bn) (h2 : bn ≥ 86) (h3 : an * 
 /-- toom8h_mul.c:96-150: for EVERY (an, bn) in the asserted domain the decomposition passes the C's own ASSERTs
     (0 < s ≤ n, 0 < t ≤ n, half || s + t > 3, n > 2), the degrees add up to 14 (half = 0) or 15 (half = 1), and
     q ≥ 3. -/
-theorem split_ok (an bn : Nat) (h1 : an ≥ bn) (h2 : bn ≥ 86) (h3 : an * 4 ≤ bn * 13) : SplitOk (split an bn) := by
+theorem split_ok (an bn : Nat) (h1 : an ≥ bn) (h2 : bn ≥ 86) (h3 : an * 4 ≤ bn * 13) : SplitOk bn (split an bn) := by
   unfold split
   by_cases hf : an = bn ∨ an * (20 / 2) < 21 * (bn / 2)
   · simp only [hf, if_true]
@@ -262,7 +263,7 @@ theorem blocks_prod (a b n p q : Nat) :
 theorem toom8h_mul_eq (mul : Nat → Nat → Nat) (hmul : ∀ x y, mul x y = x * y) (a an b bn : Nat)
     (h1 : an ≥ bn) (h2 : bn ≥ 86) (h3 : an * 4 ≤ bn * 13) : toom8h_mul mul a an b bn = some (a * b) := by
   obtain rfl : mul = fun x y => x * y := by funext x y; exact hmul x y
-  obtain ⟨s1, s2, s3, s4, s5, s6, s7, s8⟩ := split_ok an bn h1 h2 h3
+  obtain ⟨s1, s2, s3, s4, s5, s6, s7, s8, _⟩ := split_ok an bn h1 h2 h3
   unfold toom8h_mul
   rw [if_neg (not_not.mpr ⟨h1, h2, h3⟩)]
   simp only []
